@@ -120,7 +120,7 @@ ASSUMPTIONS = [
     'the fixed-capacity variants write into a stack object that cannot be fenced: they are executed only for values whose to_chars call with a capacity-sized '
     'fenced buffer stayed inside the buffer (otherwise outcome static_not_run_unsafe; the out-of-bounds write itself is reported by the fenced call)',
     'values for which to_chars does not return (descale with a positive exponent) are rationed by a defect model that is re-confirmed on the first and every '
-    '2^k-th predicted value of each program and shard; lengths/values not executed for that reason are counted as not_run_hang_predicted_by_confirmed_defect_model, '
+    '4^k-th predicted value of each program and shard; lengths/values not executed for that reason are counted as not_run_hang_predicted_by_confirmed_defect_model, '
     'never as checked, and the program is then reported as lattice rather than full-type',
 ]
 
